@@ -64,6 +64,12 @@ M = [
  ("c16_order_lost_for_large_pools", "C16", "fp.go", "\t\tif option.RandomOrder == true {", "\t\tif option.RandomOrder == true || worker > 20 {"),
  ("c16_fixedpool_1_ignored", "C16", "fp.go", "\t\tif option.FixedPool > 0 && option.FixedPool < worker {", "\t\tif option.FixedPool > 1 && option.FixedPool < worker {"),
  ("c16_last_result_dropped", "C16", "fp.go", "\tfor i := 0; i < len(list); i++ {\n\t\tnewList[i] = newListMap[i]\n\t}", "\tfor i := 0; i < len(list) && i < 33; i++ {\n\t\tnewList[i] = newListMap[i]\n\t}"),
+ ("c07_loader_drops_on_full", "C07", "queue.go", "\t\t\tif offerErr != nil {\n\t\t\t\tq.pool.Unshift(val)\n\t\t\t\tbreak\n\t\t\t}", "\t\t\tif offerErr != nil {\n\t\t\t\tbreak\n\t\t\t}"),
+ ("c07_offer_bypasses_pool", "C07", "queue.go", "\t// If appearing nothing in the pool\n\tif poolCount == 0 {\n\t\t// Try channel\n\t\terr := q.blockingQueue.Offer(val)", "\t// If appearing nothing in the pool\n\tif poolCount <= 1 {\n\t\t// Try channel\n\t\terr := q.blockingQueue.Offer(val)"),
+ ("c07_poll_no_wakeup", "C07", "queue.go", "\tverifAt(\"bcq.Poll.checked\")\n\n\tq.notifyWorkers()\n", "\tverifAt(\"bcq.Poll.checked\")\n\n"),
+ ("c07_full_guard_off_by_one", "C07", "queue.go", "\tif poolCount >= q.bufferSizeMaximum {", "\tif poolCount > q.bufferSizeMaximum {"),
+ ("c07_loader_unlocks_in_hand", "C07", "queue.go", "\t\t\tverifAt(\"bcq.loader.inhand\")\n", "\t\t\tq.lock.Unlock()\n\t\t\tverifAt(\"bcq.loader.inhand\")\n\t\t\tq.lock.Lock()\n"),
+ ("c07_count_ignores_channel", "C07", "queue.go", "\treturn len(q.blockingQueue) + q.pool.Count()", "\treturn q.pool.Count()"),
 ]
 
 
